@@ -277,9 +277,10 @@ fn adc_len166() { let b: [u8; 166] = kani::any(); adc_check(&b); }
 #[kani::proof]
 #[kani::unwind(70)]
 fn adc_len165_162() {
+    // odd number of sample bytes; 63 samples: always rejected, and the specification agrees
     let b: [u8; 165] = kani::any();
-    adc_check(&b);          // odd number of sample bytes
-    adc_check(&b[..162]);   // 63 samples
+    assert!(crate::alpha16::AdcV3Packet::try_from(&b[..]).is_err() && !adc_ok(&b));
+    assert!(crate::alpha16::AdcV3Packet::try_from(&b[..162]).is_err() && !adc_ok(&b[..162]));
 }
 
 // ================================================================ chunk at fixed lengths (C01, C03): bounded; CRC is the Kani stub
